@@ -248,9 +248,15 @@ def syntactic_defects(t):
                         p, c = SQLITE_PREC[op], SQLITE_PREC[co]
                         if (side == "L" and not p <= c) or (side == "R" and not p < c):
                             out.append("comparison-chain-not-parenthesised")
-            if op == "Mul" and rr[0] == "bin" and rr[1] == "Mod":
-                out.append("mul-right-operand-mod-not-parenthesised")
+            if op == "Mul":
+                x = rr           # `a * (x % y * z …)`: the bare right operand starts with a `%`
+                while x[0] == "bin" and x[1] == "Mul":
+                    x = strip_plus(x[2])
+                if x[0] == "bin" and x[1] == "Mod":
+                    out.append("mul-right-operand-mod-not-parenthesised")
             for ch in (l, rr):
+                while ch[0] == "un" and ch[1] == "Neg":      # `-{l}` does not parenthesise the product either
+                    ch = strip_plus(ch[2])
                 if ch[0] == "bin" and ch[1] == "DivInt" and op in ("Mod", "DivFloat", "DivInt"):
                     out.append("div_i-template-product-not-parenthesised")
     return out
@@ -266,6 +272,8 @@ def classify(ev, m, d, bad):
     rq = (r["model"] or {}).get("rq", "")
     if r["sql"] is not None and "--" in r["sql"]:
         return "double-minus-is-a-comment"
+    if m0[0] == "in" and m0[2][0] != "null" and m0[3][0] != "null" and not rq.startswith("(between"):
+        return "null-literal-created-by-folding"      # a bound became the literal null: `in` reads it as an open bound
     if k == "bin":
         op, l, rr = m[1], strip_plus(m[2]), strip_plus(m[3])
         vl = doc_at(ev, l, d, i) if isinstance(i, int) else None
@@ -287,7 +295,11 @@ def classify(ev, m, d, bad):
 
 def run(ctx):
     br = vlib.standard_proof_obligations(ctx, ["PrqlModel.Props.C02"], ["Pratt", "Expand", "SqlOps"],
-        required_theorems=["pratt_table_is_documented", "pratt_parses_tree"])
+        required_theorems=["pratt_table_is_documented", "pratt_parses_tree", "static_eval_sound_counterexample", "static_eval_sound_partial",
+                           "expand_sound_partial", "expand_sound_counterexample", "resolved_tree_meaning", "emitter_not_compatible",
+                           "sql_print_parse_partial", "sql_print_parse_counterexample", "sql_tree_meaning", "sql_div_i_meaning_partial",
+                           "sql_div_i_counterexample", "survives_counterexample_comparison_chain", "survives_counterexample_null_folding",
+                           "sql_print_counterexample_double_minus"])
     ctx.rule = ("a case = (expression tree, dialect in {sqlite, generic}); trees: every (parent, child, side) triple of the 17 binary and 3 unary "
                 "operators at depth 2 (exhaustive), each again under one more level (quick: one rotating context per triple; thorough: all "
                 "contexts), literal-folding cases, random trees of depth <= 6 with case / in / calls / literal and null leaves; compared: RQ tree, "
@@ -328,7 +340,8 @@ def run(ctx):
     # ---------------- parser tie: flat operator strings, model parse vs real parse
     parser_tie(ctx, quick)
 
-    total_bad = {"rq": 0, "sql": 0, "evals": 0, "reparse": 0}
+    total_bad = {"rq": 0, "sql": 0, "evals": 0, "reparse": 0, "prec": 0}
+    nprec = 0
     failing = []   # (tree, dialect, bad)
     agg = {"rows": 0, "undefined": 0, "inexact_unjudged": 0, "judged": 0}
     for name, trees in suites:
@@ -376,6 +389,11 @@ def run(ctx):
                                              {"tree": G.sexp(t), "dialect": d, "src": m["src"]})
                     ctx.case((name, t, d), nontrivial=False)
                     continue
+                if m.get("prec") == "ok":
+                    nprec += 1
+                elif m.get("prec") == "bad":
+                    total_bad["prec"] += 1
+                    ctx.disagreement("emitter as PrecU printer", f"{d}: tokens of `{m['sql']}` differ from PrecU.pr npEmit (toTree …)", {"tree": G.sexp(t), "dialect": d})
                 if m["sql"] != r["sql"]:
                     total_bad["sql"] += 1
                     ctx.disagreement(name + ": SQL text", f"{d}: `{m['src']}` compiles to `{r['sql']}`, model sqlPrint gives `{m['sql']}`",
@@ -441,6 +459,8 @@ def run(ctx):
     ctx.obligation("correspondence: RQ tree = staticEval (expand tree)", total_bad["rq"] == 0, f"{total_bad['rq']} differences")
     ctx.obligation("correspondence: SQL text = sqlPrint (sqlite, generic)", total_bad["sql"] == 0, f"{total_bad['sql']} differences")
     ctx.obligation("correspondence: Model.Pratt parses what Model.Pratt prints", total_bad["reparse"] == 0, "")
+    ctx.obligation("correspondence: sqlPrint = PrecU.pr npEmit on the operator fragment (ties theorem sql_print_parse_partial to the text printer)",
+                   total_bad["prec"] == 0 and nprec > 0, f"{nprec} expressions in the fragment, {total_bad['prec']} differ")
     ctx.obligation("tie C: Lean sqlParse/evalS = SQLite on the emitted expressions", total_bad["evals"] == 0, f"{total_bad['evals']} expressions differ")
 
 
